@@ -2,7 +2,9 @@
 (***************************************************************************)
 (* C20 conformance: every public callable executed with well-typed         *)
 (* in-domain and with ill-typed arguments, the same calls repeated in a    *)
-(* shuffled order (history clause), and copy-constructor scenarios.        *)
+(* shuffled order (history clause), neighbour histories (base point and    *)
+(* one-argument perturbations, forwards re-using the caller's objects and  *)
+(* backwards in a fresh interpreter - cls "near"), copy-constructors.      *)
 (*  "call": f, cls ("well"/"ill"), pre post (argument digests), gpre gpost *)
 (*          (module state digests), res shape fin oc, key, clock           *)
 (*  "copy": class; c0 = digest of the copy right after it was made, c1 =   *)
@@ -19,6 +21,7 @@ VerdictCall ==
 \cup Viol("TOTAL_ON_DOMAIN", Total(Ev))
 \cup Viol("FINITE_VALUE", FiniteValue(Ev))
 \cup Viol("REJECTS_CLEANLY", RejectsCleanly(Ev))
+\cup Viol("NEIGHBOUR_CLEAN", NearClean(Ev))
 
 VerdictCopy ==
      Viol("COPY_EQUALS_SOURCE", Ev.c0 = Ev.s0)
